@@ -53,6 +53,8 @@ func main() {
 		modeEncode(os.Args[2:])
 	case "ctor":
 		modeCtor(os.Args[2:])
+	case "conn":
+		modeConn(os.Args[2:])
 	default:
 		fmt.Fprintln(os.Stderr, "unknown mode", os.Args[1])
 		os.Exit(2)
